@@ -11,7 +11,7 @@ MANIFEST_ENTRY = dict(
     note=WALLET_NOTE + " Granularity is the wallet-lock acquisition: node calls made between two acquisitions are not separately interleaved; the section bodies are those of Wallet.tla's RefreshFull/Scan step programs.")
 
 PARAMS = dict(quick_cfgs=["MC_C03_quick.cfg"], thorough_cfgs=["MC_C03_quick.cfg", "MC_C17_quick.cfg", "MC_C18_quick.cfg"],
-              quick_scen=10, thorough_scen=60, quick_sched=24, thorough_sched=120, setup=STD_SETUP)
+              quick_scen=4, thorough_scen=60, quick_sched=16, thorough_sched=120, setup=STD_SETUP)
 OPS = {"init_send", "lock", "receive", "finalize", "cancel", "mine", "post"}
 
 _I = {"ev": "init_send", "w": "w1", "sl": "s1", "amt": 1000}
@@ -21,16 +21,19 @@ _F = {"ev": "finalize", "w": "w1", "sl": "s1", "stage": "S2"}
 _P = {"ev": "post", "sl": "s1"}
 _M = {"ev": "mine", "txs": ["s1"]}
 _M0 = {"ev": "mine", "txs": []}
-# directed scenarios: always executed with ALL their schedules
+# directed scenarios: always executed with ALL their schedules.  The first 8 are, in this
+# order, the scenarios of spec/MCConc.tla: for them the section-level model predicts which
+# schedules are serializable (Layer M of C20).
 SCRIPTED = [
+    {"prefix": [_I, _L, _R, _F, _P], "r": {"ev": "refresh", "w": "w2"}, "ops": [_M]},
     {"prefix": [_I, _L, _R, _F, _P], "r": {"ev": "refresh", "w": "w2"}, "ops": [_M, {"ev": "cancel", "w": "w2", "id": 0}]},
     {"prefix": [_I, _L, _R, _F, _P], "r": {"ev": "refresh", "w": "w1"}, "ops": [_M]},
-    {"prefix": [_I, _L, _R, _F, _P], "r": {"ev": "refresh", "w": "w2"}, "ops": [_M]},
     {"prefix": [_I, _L, _R], "r": {"ev": "refresh", "w": "w1"}, "ops": [_F, _P]},
     {"prefix": [_I], "r": {"ev": "refresh", "w": "w1"}, "ops": [_L, {"ev": "cancel", "w": "w1", "id": 2}]},
-    {"prefix": [_I, _L, _R, _F, _P, _M], "r": {"ev": "refresh", "w": "w1"}, "ops": [{"ev": "init_send", "w": "w1", "sl": "s2", "amt": 1000}]},
     {"prefix": [_I, _L, _R, _F, _P], "r": {"ev": "scan", "w": "w2", "start": 1, "del": True}, "ops": [_M]},
     {"prefix": [_I, _L, _R, _F, _P], "r": {"ev": "scan", "w": "w1", "start": 1, "del": False}, "ops": [_M, {"ev": "cancel", "w": "w1", "id": 2}]},
+    {"prefix": [_I, _L, _R, _F, _P], "r": {"ev": "refresh", "w": "w2"}, "ops": [{"ev": "cancel", "w": "w2", "id": 0}, _M]},
+    {"prefix": [_I, _L, _R, _F, _P, _M], "r": {"ev": "refresh", "w": "w1"}, "ops": [{"ev": "init_send", "w": "w1", "sl": "s2", "amt": 1000}]},
     {"prefix": [dict(_I, ttlb=1), _L, _R], "r": {"ev": "refresh", "w": "w1"}, "ops": [_M0, _F]},
 ]
 
@@ -125,7 +128,8 @@ def run(tier, replay_path, t0):
                     if rk == "scan":
                         r.update({"start": 1, "del": rnd.random() < 0.5})
                     scen.append({"prefix": pre, "r": r, "ops": ops})
-        scen = [dict(x, scripted=True) for x in SCRIPTED] + scen
+        keep = set(range(len(SCRIPTED))) if tier == "thorough" else {0, 1, 4, 6, 9}
+        scen = [dict(x, scripted=True, modelled=(i + 1 if i < 8 else 0)) for i, x in enumerate(SCRIPTED) if i in keep] + scen
         setup = p["setup"]
     # pass 1: count the sections of R in each scenario (no schedules yet)
     nd0 = replay("replay_conc", {"setup": setup, "scenarios": scen}, prop + "_count")
@@ -173,6 +177,36 @@ def run(tier, replay_path, t0):
             keys[key] = {"scenario": {k: scen[e["b"]][k] for k in ("prefix", "r", "ops")}, "sched": e["sched"], "setup": setup,
                          "opres": e["opres"], "rres": e["rres"], "count": 0, "fields": detail, "opkinds": e["opkinds"]}
         keys[key]["count"] += 1
+    # Layer M: the section-level model (spec/ConcWallet.tla, MCConc.tla) predicts, for the
+    # modelled scenarios, exactly which schedules are not serializable
+    model_stats, mismatches, compared = {}, [], 0
+    if not replay_path:
+        r = run_tlc("MCConc.tla", "MC_Conc.cfg" if tier == "thorough" else "MC_Conc_quick.cfg", "mcconc", workers=6, timeout=1200, keep_tags=("SCHEDV", "CEX"), max_keep=100000)
+        if not r["completed"]:
+            log(r["out"][-2000:])
+            raise ToolError("MCConc did not complete")
+        pred = {}
+        for x in parse_printed(r["printed"]["SCHEDV"], "SCHEDV"):
+            pred[(x["scen"], tuple(x["at"]))] = x["ser"]
+        lemma_broken = any(c.get("inv") == "Lemma_Alone" for c in parse_printed(r["printed"]["CEX"], "CEX"))
+        model_stats = {"states": r["states"], "transitions": r["transitions"], "schedules": len(pred),
+                       "non_serializable_predicted": sum(1 for v in pred.values() if not v), "lemma_alone_holds": not lemma_broken}
+        bad_lines = set(v["line"] for v in viols if v["m"] == "Serializable")
+        for li, e in enumerate(events, 1):
+            if e["ev"] != "conc":
+                continue
+            m = scen[e["b"]].get("modelled", 0)
+            if not m:
+                continue
+            k = (m, tuple(min(x, e["sections"]) if isinstance(x, int) else x for x in e["sched"]))
+            if k in pred:
+                compared += 1
+                if pred[k] != (li not in bad_lines):
+                    mismatches.append({"scen": m, "sched": e["sched"], "model_serializable": pred[k], "observed_serializable": li not in bad_lines})
+        log("  section-level model: %d states, %d schedules, %d predicted non-serializable; %d schedules compared with the real code, %d disagree" % (
+            r["states"], len(pred), model_stats["non_serializable_predicted"], compared, len(mismatches)))
+        if mismatches or lemma_broken:
+            log("NONCONFORMANCE: the section-level model and the real code disagree on %d schedules; first: %s" % (len(mismatches), mismatches[:2]))
     known, new = classify(prop, keys)
     conc = [e for e in events if e["ev"] == "conc"]
     if not replay_path and not conc:
@@ -182,14 +216,16 @@ def run(tier, replay_path, t0):
         kk = "%s|%s" % (e["r"], ",".join(e["opkinds"]))
         kinds[kk] = kinds.get(kk, 0) + 1
     cov = {
-        "states": sum(s["states"] for s in stats) + nsched_model_states,
-        "transitions": sum(s["transitions"] for s in stats) + nsched_model_trans,
+        "states": sum(s["states"] for s in stats) + nsched_model_states + model_stats.get("states", 0),
+        "transitions": sum(s["transitions"] for s in stats) + nsched_model_trans + model_stats.get("transitions", 0),
         "traces_validated_against_impl": len(conc),
         "samples": [{k: e[k] for k in ("r", "w", "opkinds", "sched", "rres", "opres", "sections")} for e in conc[:8]],
         "scenarios": len(scen), "schedules_enumerated_by_tlc": total_sched, "schedules_executed": len(conc),
         "serial_orders_executed": sum(c.get("serial_orders", 0) for c in counts),
         "schedules_by_kind": kinds, "non_serializable": sum(1 for v in viols if v["m"] == "Serializable"),
-        "hangs": sum(1 for e in conc if e.get("hang")), "mc_configs": stats, "harness_build_s": round(build_s, 1),
+        "hangs": sum(1 for e in conc if e.get("hang")), "mc_configs": stats,
+        "section_model": model_stats, "section_model_schedules_compared": compared, "layer_m_nonconformances": len(mismatches),
+        "layer_m_first": mismatches[:3], "harness_build_s": round(build_s, 1),
         "exhaustive": all(len(s.get("schedules", [])) >= 1 for s in scen) and total_sched == len(conc),
     }
     finish(prop, tier, "model_checking", cov, WALLET_ASSUME, t0, known, new)
